@@ -3,6 +3,7 @@
 * This file is part of BitSerializer library, licensed under the MIT license.  *
 *******************************************************************************/
 #include "msgpack_readers.h"
+#include <cstring>
 #include "bitserializer/conversion_detail/memory_utils.h"
 
 /*
@@ -222,7 +223,10 @@ namespace
 	{
 		if (pos + sizeof(T) <= inputData.size())
 		{
-			outValue = Memory::BigEndianToNative(*reinterpret_cast<const T*>(inputData.data() + pos));
+			// The source may be unaligned
+			T rawValue;
+			std::memcpy(&rawValue, inputData.data() + pos, sizeof(T));
+			outValue = Memory::BigEndianToNative(rawValue);
 			pos += sizeof(T);
 		}
 		else {
@@ -834,7 +838,10 @@ namespace
 	{
 		if (const auto data = binaryStreamReader.ReadSolidBlock(sizeof(T)); !data.empty())
 		{
-			outValue = Memory::BigEndianToNative(*reinterpret_cast<const T*>(data.data()));
+			// The source may be unaligned
+			T rawValue;
+			std::memcpy(&rawValue, data.data(), sizeof(T));
+			outValue = Memory::BigEndianToNative(rawValue);
 		}
 		else {
 			throw ParsingException("Unexpected end of input archive", 0, binaryStreamReader.GetPosition());
